@@ -45,7 +45,8 @@ Lemma try_open_wf : forall f, wf f -> known_toc_cksum f = false ->
   exists m0, try_open f = (m0, 0) /\
     f_ptr m0 = f_toc m0 /\ f_S m0 = f_C m0 /\ f_tocdec m0 = true /\ f_older m0 = None /\ replayed m0 = false /\
     f_rows m0 = view f /\ f_toc m0 = (if moved f then f_toc f + 1 else f_toc f) /\
-    f_vec m0 = f_vec f /\ f_lex m0 = f_lex f /\ f_nvec m0 = f_nvec f /\
+    f_vec m0 = (if replayed f then vec_after_replay (f_vec f) else f_vec f) /\
+    f_lex m0 = f_lex f /\ f_nvec m0 = f_nvec f /\
     (if replayed f then f_time m0 = IxOk /\ f_footer m0 = true /\ f_tocbytes m0 = true /\ f_H m0 = f_S m0
      else f_time m0 = f_time f /\ f_footer m0 = f_footer f /\ f_tocbytes m0 = f_tocbytes f /\ f_S m0 = f_S f /\
           f_H m0 = (if read_toc f then f_H f else f_S f)).
